@@ -75,7 +75,7 @@ def make_case(args):
         aux = {k: xr.DataArray(np.full(shp, v), dims=lead, coords={d: da[d] for d in lead}) for k, v in
                (("wspd", 10.0), ("wdir", 45.0), ("dpt", 40.0))}
         for op in sorted(C):
-            rec = dict(op=op, kind=kind, nf=nf, nd=nd, fk=fk, extra=nextra, freq=freq.tolist(), dirs=dirs.tolist(), E=E.tolist())
+            rec = dict(icase=icase, op=op, kind=kind, nf=nf, nd=nd, fk=fk, extra=nextra, freq=freq.tolist(), dirs=dirs.tolist(), E=E.tolist())
             # operations whose own parameters need a minimum grid size (they use the 2nd/3rd frequency as a cut-off)
             need = {"stats_split": 4, "split": 4, "ptm5": 3, "bbox": 5, "interp": 2, "interp_nom0": 2, "split_one_cell": 3,
                     "split_on_nodes": 3, "ptm5_on_node": 3}
@@ -115,7 +115,7 @@ def make_case(args):
         "sel(method)": lambda: da.to_dataset(name="efth").assign(lon=0.0, lat=0.0).expand_dims("site").spec.sel([0], [0], method="cubic"),
     }
     for nm, f in bad.items():
-        rec = dict(op="invalid:" + nm, kind="invalid", nf=6, nd=8)
+        rec = dict(icase=icase, op="invalid:" + nm, kind="invalid", nf=6, nd=8)
         try:
             f()
             rec["noexc"] = True
@@ -138,7 +138,9 @@ def run_check():
     import_ws()
     n = 27 if ck.tier == "quick" else 300
     try:
-        res = pmap(make_case, [(ck.seed, i) for i in range(n)], timeout=900 if ck.tier == "quick" else 2400)
+        from ..common import replay_ids
+
+        res = pmap(make_case, [(ck.seed, i) for i in replay_ids(ck, n)], timeout=900 if ck.tier == "quick" else 2400)
     except PmapTimeout as e:
         # the property is also about termination: a public call that never returns on valid input is a violation
         ck.fail("python_level", f"{e}: some public call on a degenerate spectrum did not return (hang inside the library or its "
